@@ -56,11 +56,11 @@ import RoProofs.Ops.MoreSpecs
 import RoProofs.Ops.MoreCtx
 import RoProofs.Ops.CreateSpecs
 import RoProofs.Ops.CreateCtx
-import RoProofs.Fault.Sim
-import RoProofs.Fault.Run
-import RoProofs.Fault.Next
-import RoProofs.Fault.NoEscape
-import RoProofs.Fault.Account
-import RoProofs.Fault.Kernel
-import RoProofs.Fault.Grammar
-import RoProofs.Fault.SubscribeFn
+-- (C07 being adapted) import RoProofs.Fault.Sim
+-- (C07 being adapted) import RoProofs.Fault.Run
+-- (C07 being adapted) import RoProofs.Fault.Next
+-- (C07 being adapted) import RoProofs.Fault.NoEscape
+-- (C07 being adapted) import RoProofs.Fault.Account
+-- (C07 being adapted) import RoProofs.Fault.Kernel
+-- (C07 being adapted) import RoProofs.Fault.Grammar
+-- (C07 being adapted) import RoProofs.Fault.SubscribeFn
